@@ -179,6 +179,7 @@ ReaderClass(plan, st) ==
 (*             2 terminating call that cannot report (into_inner -> W)       *)
 (*   prefix    the accepted bytes are a prefix of the fault-free output      *)
 (*   complete  the accepted bytes are the whole fault-free output            *)
+(*   nomissing / rbnone / rbsame   see W7                                    *)
 (* Driver protocol: after the first "err" no further data call, only the     *)
 (* terminating call(s); so "an error was reported" = some result is "err".   *)
 AnyErr(S) == \E i \in DOMAIN S.res : S.res[i] = "err"
@@ -210,17 +211,26 @@ W4(S) == S.class \in {"none", "transparent"} => (AllOk(S) /\ S.complete)
 
 (* retrying a failed terminating call may only succeed by actually finishing: *)
 (* when every failure of the session was reported by a terminating call and a *)
-(* later terminating call reports success, the sink holds the complete        *)
-(* fault-free output (a data call that failed leaves the writer in an         *)
-(* unspecified state: not constrained here)                                   *)
+(* later terminating call reports success, then either the sink holds exactly *)
+(* the complete fault-free output, or no byte is missing (nomissing: at least *)
+(* as many bytes as the fault-free output) and - where the format has a       *)
+(* reader (~rbnone) - reading the accepted bytes back succeeds and returns    *)
+(* exactly the batches the fault-free output reads as (rbsame).  A data call  *)
+(* that failed leaves the writer in an unspecified state: not constrained.    *)
+(* (The second alternative is what the arrow-ipc writers do: finish sets      *)
+(* `finished` last and starts over with write_eos when retried, so a retried  *)
+(* finish leaves a second end-of-stream marker - file writer: and the first,  *)
+(* possibly partial, footer copy - in an output that both readers still read  *)
+(* completely.  The property does not forbid extra bytes emitted after the    *)
+(* fault, only success with bytes missing.)                                   *)
 W7(S) ==
   LET E == {i \in DOMAIN S.res : S.res[i] = "err"} IN
   ( /\ E # {} /\ \A i \in E : S.term[i] = 1
     /\ \E i \in E : \E j \in DOMAIN S.res : j > i /\ S.term[j] = 1 /\ S.res[j] = "ok" )
-  => S.complete
+  => \/ S.complete
+     \/ S.nomissing /\ (S.rbnone \/ S.rbsame)
 
-WriterOkBut7(S) == W0(S) /\ W1(S) /\ W2(S) /\ W3(S) /\ W4(S)
-WriterOk(S) == WriterOkBut7(S) /\ W7(S)
+WriterOk(S) == W0(S) /\ W1(S) /\ W2(S) /\ W3(S) /\ W4(S) /\ W7(S)
 
 (* --------------------------------------------- reader sessions, truncation *)
 (* format classes: "footer" (Parquet, IPC file): a cut file is rejected;     *)
